@@ -343,3 +343,72 @@ Print Assumptions C07_source_end_to_end_VerifyDetachedReader.
 Print Assumptions C07_source_end_to_end_VerifyDetached_nil_error.
 Print Assumptions C07_source_end_to_end_VerifyDetachedReader_nil_error.
 
+(* =========================================== PART C07: props/C07.v ======================================= *)
+From SP Require GoAstEntry GoAstProofs5a GoAstProofs5c GoAstProofs6a GoAstProofs6b GoEndToEndEnc GoEndToEndSign GoAstProofs8a.
+(* ---- source ties: NewSignDetachedStream, SignDetached (/repo/sign.go), lemmas of proofs/GoAstProofs8a.v ----
+   As for the attached forms; sign_det_spec returns the model's sign_detached. *)
+Section C07_source_entry.
+Import GoAstEntry GoAstProofs8a.
+Local Open Scope string_scope.
+
+Theorem C07_source_go_NewSignDetachedStream :
+  forall (c : crypto) (enc_step : gval -> bytes -> gval * A.gerr) (r : rng) (v : version) 
+    (w : gval) (signer : option bytes),
+  fst (run_func2 (ext_NSS c enc_step r) f_saltpack_NewSignDetachedStream [g_version v; w; A.g_signer signer]) =
+  A.sds_new c enc_step v w signer r.
+Proof. exact go_NewSignDetachedStream. Qed.
+
+Theorem C07_source_go_SignDetached :
+  forall (STS : list gval -> option (gval * GoAstProofs5a.gerr)) (BY : gval -> option gval) (V P S : gval),
+  fst (run_func2 (ext_sign STS BY) f_saltpack_SignDetached [V; P; S]) =
+  sign_wrap STS BY [V; P; S; fn_NewSignDetachedStream].
+Proof. exact go_SignDetached. Qed.
+
+Theorem C07_source_go_SignDetached_spec :
+  forall (c : crypto) (r : rng) (v : version) (p : bytes) (signer : option bytes),
+  fst
+    (run_func2 (ext_sign (STS_spec c r) (fun b : gval => Some b)) f_saltpack_SignDetached
+       [g_version v; VBytes p; A.g_signer signer]) = sign_det_spec c r v p signer.
+Proof. exact go_SignDetached_spec. Qed.
+
+Theorem C07_source_sign_det_spec_model :
+  forall (c : crypto) (r : rng) (v : version) (sk p : bytes) (r' : rng) (outb : bytes),
+  sign_detached c v sk p r = Ok (outb, r') -> sign_det_spec c r v p (Some sk) = ORet [VBytes outb; VNil].
+Proof. exact sign_det_spec_model. Qed.
+
+Theorem C07_source_compose_newSignDetachedStream :
+  forall (c : crypto) (enc_step : gval -> bytes -> gval * A.gerr) (r : rng) (v : version) 
+    (w : gval) (signer : option bytes),
+  fst (run_func2 (A.ext_new c enc_step r) f_saltpack_newSignDetachedStream [g_version v; w; A.g_signer signer]) =
+  match ext_NSS c enc_step r "newSignDetachedStream" [g_version v; w; A.g_signer signer] with
+  | Some rs => ORet rs
+  | None => OStuck "call"
+  end.
+Proof. exact compose_newSignDetachedStream. Qed.
+
+Theorem C07_source_go_sds_open_from_NewSignDetachedStream :
+  forall (c : crypto) (v : version) (sk : bytes) (pieces : list bytes) (r : rng),
+  S.go_sds_open c v sk pieces r =
+  match
+    fst
+      (run_func2 (ext_NSS c A.mem_enc r) f_saltpack_NewSignDetachedStream
+         [g_version v; VBytes []; A.g_signer (Some sk)])
+  with
+  | ORet [obj; VNil] => S.go_sds_writes c obj pieces
+  | ORet [obj] | ORet (obj :: VInt _ :: _) | ORet (obj :: VBool _ :: _) | ORet (obj :: VBytes _ :: _) |
+    ORet (obj :: VStruct _ :: _) | ORet (obj :: VList _ :: _) | ORet (obj :: VNil :: _ :: _) |
+    ORet (obj :: VErr _ _ :: _) => None
+  | _ => None
+  end.
+Proof. exact go_sds_open_from_NewSignDetachedStream. Qed.
+
+End C07_source_entry.
+
+Print Assumptions C07_source_go_NewSignDetachedStream.
+Print Assumptions C07_source_go_SignDetached.
+Print Assumptions C07_source_go_SignDetached_spec.
+Print Assumptions C07_source_sign_det_spec_model.
+Print Assumptions C07_source_compose_newSignDetachedStream.
+Print Assumptions C07_source_go_sds_open_from_NewSignDetachedStream.
+
+
